@@ -39,6 +39,9 @@ impl ShellVariable {
     pub fn export(&mut self) -> (r: &mut Self)
         ensures r.exported && r.readonly == old(self).readonly && r.value == old(self).value && *final(self) == *final(r)
     { self.exported = true; self }
+    pub fn unexport(&mut self) -> (r: &mut Self)
+        ensures !r.exported && r.readonly == old(self).readonly && r.value == old(self).value && *final(self) == *final(r)
+    { self.exported = false; self }
 }
 pub struct Env {
     pub vars: Ghost<Map<Seq<char>, (EnvironmentScope, ShellVariable)>>,          // the variable visible under each name, and the scope it lives in
